@@ -339,4 +339,15 @@ def affine_kinds(repo: Repo) -> RuleRun:
 
 affine_kinds.rule_id = "C13.AFFINE-KINDS"
 
-RULES = [rollback, probe_restore, who_writes_points, backport_rule, warning_filter, affine_kinds]
+def link_relation(repo: Repo) -> RuleRun:
+    """'linked vertices keep their relation to their leader' while optimising: the link transforms as linear forms over leader,
+    origin and the original offset - same rule as C17.LINK-ALGEBRA."""
+    from ..report import rebrand
+    from . import c17
+
+    return rebrand(c17.link_algebra(repo), PROP, "C13.LINK-RELATION")
+
+
+link_relation.rule_id = "C13.LINK-RELATION"
+
+RULES = [rollback, probe_restore, who_writes_points, backport_rule, warning_filter, affine_kinds, link_relation]
